@@ -7,6 +7,11 @@
 //!               list: value list total/free-by-count/alloc_count/grow_count, vector list the same, stale
 //!               accesses, full collections, forced collections, mark-queue length) and `=== end`.
 //!               Script output (`display`) goes to stdout unchanged, in order.
+//!               A piece whose first line is `;;;host-root NAME` is evaluated as usual, then the value of the
+//!               global NAME is taken by the host as a ROOTED value (`SteelVal::as_rooted`) — the host keeps
+//!               it in a Rust vector, the script is expected to overwrite the global.  A piece whose first line
+//!               is `;;;host-call FN` calls the global function FN with all values the host holds (in order)
+//!               and prints its result like a piece; `;;;host-release` drops them.
 use std::io::{Read, Write};
 use std::panic::{catch_unwind, AssertUnwindSafe};
 
@@ -52,9 +57,37 @@ fn main() {
             continue;
         }
         let mut engine = Engine::new();
+        let mut held: Vec<steel::RootedSteelVal> = Vec::new();
         for piece in program.split("\n;;;---\n") {
+            let first = piece.lines().next().unwrap_or("");
+            if let Some(name) = first.strip_prefix(";;;host-root ") {
+                println!("{}", eval_piece(&mut engine, piece));
+                match engine.extract_value(name.trim()) {
+                    Ok(v) => held.push(v.as_rooted()),
+                    Err(e) => println!("=> err host-root {}", e),
+                }
+                continue;
+            }
+            if let Some(name) = first.strip_prefix(";;;host-call ") {
+                let args: Vec<steel::SteelVal> = held.iter().map(|r| r.value().clone()).collect();
+                let r = catch_unwind(AssertUnwindSafe(|| {
+                    engine.call_function_by_name_with_args(name.trim(), args)
+                }));
+                match r {
+                    Ok(Ok(v)) => println!("=> ok {}", v),
+                    Ok(Err(e)) => println!("=> err {}", format!("{}", e).lines().next().unwrap_or("")),
+                    Err(_) => println!("=> panic host-call"),
+                }
+                continue;
+            }
+            if first.starts_with(";;;host-release") {
+                held.clear();
+                println!("=> ok released");
+                continue;
+            }
             println!("{}", eval_piece(&mut engine, piece));
         }
+        drop(held);
         // the forced collections stop here; report the counters of this engine's heap
         let stats = eval_piece(&mut engine, "(begin (#%verif-gc-every 0) (#%verif-heap-stats))");
         println!("## stats {}", stats.trim_start_matches("=> ok ").trim_start_matches("0|"));
